@@ -12,8 +12,8 @@ package api
 //@ datainv flag_validate_string props C18: _F_validate_string == consts.F_validate_string && consts.OptionValidateString == 1 << consts.F_validate_string
 //@ datainv flag_no_validate_json props C18: consts.OptionNoValidateJSON == 1 << consts.F_no_validate_json
 //@ datainv flag_case_sensitive props C18: consts.OptionCaseSensitive == 1 << consts.F_case_sensitive
-//@ datainv flag_native_shared props C18: consts.F_use_number == types.B_USE_NUMBER && consts.F_validate_string == types.B_VALIDATE_STRING && consts.F_no_validate_json == types.B_NO_VALIDATE_JSON
-//@ datainv flag_distinct props C18: consts.F_use_int64 != consts.F_use_number && consts.F_use_int64 != consts.F_disable_urc && consts.F_use_int64 != consts.F_disable_unknown && consts.F_use_int64 != consts.F_copy_string && consts.F_use_int64 != consts.F_validate_string && consts.F_use_int64 != consts.F_no_validate_json && consts.F_use_int64 != consts.F_case_sensitive && consts.F_use_number != consts.F_disable_urc && consts.F_use_number != consts.F_disable_unknown && consts.F_use_number != consts.F_copy_string && consts.F_use_number != consts.F_validate_string && consts.F_use_number != consts.F_no_validate_json && consts.F_use_number != consts.F_case_sensitive && consts.F_disable_urc != consts.F_disable_unknown && consts.F_disable_urc != consts.F_copy_string && consts.F_disable_urc != consts.F_validate_string && consts.F_disable_urc != consts.F_no_validate_json && consts.F_disable_urc != consts.F_case_sensitive && consts.F_disable_unknown != consts.F_copy_string && consts.F_disable_unknown != consts.F_validate_string && consts.F_disable_unknown != consts.F_no_validate_json && consts.F_disable_unknown != consts.F_case_sensitive && consts.F_copy_string != consts.F_validate_string && consts.F_copy_string != consts.F_no_validate_json && consts.F_copy_string != consts.F_case_sensitive && consts.F_validate_string != consts.F_no_validate_json && consts.F_validate_string != consts.F_case_sensitive && consts.F_no_validate_json != consts.F_case_sensitive
+//@ datainv flag_native_shared props C18,C02: consts.F_use_number == types.B_USE_NUMBER && consts.F_validate_string == types.B_VALIDATE_STRING && consts.F_no_validate_json == types.B_NO_VALIDATE_JSON
+//@ datainv flag_distinct props C18,C02: consts.F_use_int64 != consts.F_use_number && consts.F_use_int64 != consts.F_disable_urc && consts.F_use_int64 != consts.F_disable_unknown && consts.F_use_int64 != consts.F_copy_string && consts.F_use_int64 != consts.F_validate_string && consts.F_use_int64 != consts.F_no_validate_json && consts.F_use_int64 != consts.F_case_sensitive && consts.F_use_number != consts.F_disable_urc && consts.F_use_number != consts.F_disable_unknown && consts.F_use_number != consts.F_copy_string && consts.F_use_number != consts.F_validate_string && consts.F_use_number != consts.F_no_validate_json && consts.F_use_number != consts.F_case_sensitive && consts.F_disable_urc != consts.F_disable_unknown && consts.F_disable_urc != consts.F_copy_string && consts.F_disable_urc != consts.F_validate_string && consts.F_disable_urc != consts.F_no_validate_json && consts.F_disable_urc != consts.F_case_sensitive && consts.F_disable_unknown != consts.F_copy_string && consts.F_disable_unknown != consts.F_validate_string && consts.F_disable_unknown != consts.F_no_validate_json && consts.F_disable_unknown != consts.F_case_sensitive && consts.F_copy_string != consts.F_validate_string && consts.F_copy_string != consts.F_no_validate_json && consts.F_copy_string != consts.F_case_sensitive && consts.F_validate_string != consts.F_no_validate_json && consts.F_validate_string != consts.F_case_sensitive && consts.F_no_validate_json != consts.F_case_sensitive
 
 // ---- setters (C18)
 //@ func (*Decoder).SetOptions props C18 mode bv
